@@ -37,7 +37,7 @@ InFields == << [name |-> "x", py |-> "px", type |-> Named("Int"), hasDef |-> TRU
                [name |-> "l", py |-> "pl", type |-> ListOf(NN(Named("In"))), hasDef |-> FALSE, def |-> [k |-> "null"]],
                [name |-> "d", py |-> "pd", type |-> Named("Int"), hasDef |-> TRUE, def |-> [k |-> "null"]] >>      \* an explicit "= null" default is a default
 \* ---- supplied values (JSON / literal shaped) --------------------------------
-IntAtoms == {"MININT-1", "MININT", "0", "MAXINT", "MAXINT+1"}
+IntAtoms == {"MININT-1", "MININT", "0", "MAXINT", "MAXINT+1", "HUGE"}     \* HUGE: the number 1e999 (no integer, beyond every range)
 InRange(a) == a \in {"MININT", "0", "MAXINT"}
 Scalars == {[k |-> "null"]} \cup {[k |-> "int", v |-> a] : a \in IntAtoms} \cup {[k |-> "str", v |-> s] : s \in {"A", "q"}}
 Obj(fs) == [k |-> "obj", fs |-> fs]            \* fs: sequence of [key, val]
